@@ -1,7 +1,7 @@
 """C06 Every sampler is handed the Gaussian log-likelihood of the binned model."""
 import ast
 
-from sa.helpers import (the_return, mkflow, spec, code, one, calls, bind_call, param_env,
+from sa.helpers import (guard_is, same_cond, the_return, mkflow, spec, code, one, calls, bind_call, param_env,
                         fmt, atom_of, unparse, walk_no_nested)
 from sa.index import AnalysisError, FuncInfo, ClassInfo
 from sa.algebra import RF, Conv, Table
@@ -367,11 +367,11 @@ def update_model(ix, R):
         lenchk_c, _ = fl.tab.canon_cond(lenchk)
         for e in pr:
             extra = [g for g in e.guards if not (g.early and g.rf is not None and (
-                fl.tab.equal(g.rf, lenchk) or fl.tab.equal(fl.tab.canon_cond(g.rf)[0], lenchk_c)))]
+                guard_is(fl, g, lenchk, False)))]
             if extra:
                 why.append('the parameter is set only under %s' % [g.text() for g in extra])
         rs = fl.of('raise')
-        if not rs or not any(fl.tab.equal(g.rf, spec(fl, 'len(p) != len(self.fitting_parameters)', pe))
+        if not rs or not any(guard_is(fl, g, spec(fl, 'len(p) != len(self.fitting_parameters)', pe), True)
                              for r_ in rs for g in r_.guards):
             why.append('length mismatch does not raise')
         if fl.of('store'):
